@@ -363,7 +363,7 @@ def gen_raw(chk):
     """raw token strings (tensor sub-grammar, target, '='): all strings over a small alphabet"""
     rng = chk.rng
     thorough = chk.tier == "thorough"
-    alpha = ["b", "i", "(", ")", ",", "+", "1", "*", "="]
+    alpha = ["b", "i", "(", ")", ",", "+", "1", "*"] + (["="] if thorough else [])
     jobs = []
     maxlen = 5 if thorough else 4
     for n in range(0, maxlen + 1):
@@ -375,7 +375,7 @@ def gen_raw(chk):
     alpha2 = ["a", "(", ")", ",", "=", "1", "i"]
     for n in range(0, (6 if thorough else 5) + 1):
         for toks in itertools.product(alpha2, repeat=n):
-            if n >= 5 and rng.random() > (0.1 if n == 5 else 0.03):
+            if n >= 5 and rng.random() > ((0.1 if n == 5 else 0.03) if thorough else 0.04):
                 continue
             jobs.append({"op": "parse", "s": " ".join(toks), "tag": "raw-assignment"})
     return jobs
